@@ -88,9 +88,8 @@ type upstreams struct {
 }
 
 var (
-	upOnce sync.Once
-	up     *upstreams
-	upErr  error
+	upMu sync.Mutex
+	up   *upstreams
 )
 
 const (
@@ -98,9 +97,35 @@ const (
 	sniHTTPSName = "https.c18.test"
 )
 
+// getUpstreams starts the upstream services once; a failure is not remembered (the next case tries again).
 func getUpstreams() (*upstreams, error) {
-	upOnce.Do(func() { up, upErr = startUpstreams() })
-	return up, upErr
+	upMu.Lock()
+	defer upMu.Unlock()
+	if up != nil {
+		return up, nil
+	}
+	u, err := startUpstreams()
+	if err != nil {
+		return nil, err
+	}
+	up = u
+	return up, nil
+}
+
+func listenFree() (net.Listener, error) {
+	var last error
+	for i := 0; i < 20; i++ {
+		a, err := freeAddr()
+		if err != nil {
+			return nil, err
+		}
+		l, err := net.Listen("tcp", a)
+		if err == nil {
+			return l, nil
+		}
+		last = err
+	}
+	return nil, last
 }
 
 func selfSigned() (tls.Certificate, error) {
@@ -197,7 +222,7 @@ func startUpstreams() (*upstreams, error) {
 	}
 
 	// HTTP: GET /hold/<id> blocks until the item is released, then answers 200 "done".
-	hl, err := net.Listen("tcp", "127.0.0.1:0")
+	hl, err := listenFree()
 	if err != nil {
 		return nil, err
 	}
@@ -216,21 +241,22 @@ func startUpstreams() (*upstreams, error) {
 		}
 	}))
 
-	tl, err := net.Listen("tcp", "127.0.0.1:0")
+	tl, err := listenFree()
 	if err != nil {
 		return nil, err
 	}
 	u.tcpAddr = tl.Addr().String()
 	go acceptLoop(tl)
 
-	sl, err := tls.Listen("tcp", "127.0.0.1:0", &tls.Config{Certificates: []tls.Certificate{u.cert}})
+	sl0, err := listenFree()
 	if err != nil {
 		return nil, err
 	}
+	sl := tls.NewListener(sl0, &tls.Config{Certificates: []tls.Certificate{u.cert}})
 	u.tlsAddr = sl.Addr().String()
 	go acceptLoop(sl)
 
-	gl, err := net.Listen("tcp", "127.0.0.1:0")
+	gl, err := listenFree()
 	if err != nil {
 		return nil, err
 	}
